@@ -18,7 +18,7 @@ from .values import (BOOL, BYTES, INT, REAL, Bound, BytesSort, Func, Ghost,
                      SymMap, SymSet, concrete_int, is_byteslike, lift_bool,
                      lift_bytes, lift_int, mk_bool, mk_bytes, mk_int)
 from .types import T, elem_from_arrays, elem_to_arrays, NONE_CODE
-from .values import SymTuple
+from .values import SymTuple, ZERO_ARR, b_arr, b_len, mkb
 
 ASSUMED = [
     "struct.pack/unpack/unpack_from/calcsize for literal formats: expanded "
@@ -227,16 +227,15 @@ class Lib:
             return
         if isinstance(v, MutBytes):
             s = v.t
-            n = z3.Length(s)
+            n = b_len(s)
             i = lift_int(idx)
-            j = z3.If(i < 0, i + n, i)
+            j = z3.simplify(z3.If(i < 0, i + n, i))
             if ex.fork(z3.Or(j < 0, j >= n), "bytearray index out of range"):
                 ex.raise_builtin(IndexError)
             b = lift_int(value)
             if ex.fork(z3.Or(b < 0, b > 255), "byte value out of range"):
                 ex.raise_builtin(ValueError)
-            v.t = z3.simplify(z3.Concat(z3.SubSeq(s, 0, j), z3.Unit(b),
-                                        z3.SubSeq(s, j + 1, n - j - 1)))
+            v.t = mkb(z3.Store(b_arr(s), j, b), n)
             return
         if isinstance(v, SymList):
             i = lift_int(idx)
@@ -260,15 +259,23 @@ class Lib:
     def setslice(self, ex, v, lo, hi, value):
         if isinstance(v, MutBytes):
             s = v.t
-            n = z3.Length(s)
-            a = ops.norm_index(lo, n, z3.IntVal(0))
+            n = b_len(s)
+            a = z3.simplify(ops.norm_index(lo, n, z3.IntVal(0)))
             b = ops.norm_index(hi, n, n)
-            b = z3.If(b < a, a, b)
+            b = z3.simplify(z3.If(b < a, a, b))
             new = lift_bytes(value)
-            # bytearray slice assignment may resize; memoryview may not:
-            # both are covered by the resulting term
-            v.t = z3.simplify(z3.Concat(z3.SubSeq(s, 0, a), new,
-                                        z3.SubSeq(s, b, n - b)))
+            ln = b_len(new)
+            # bytearray slice assignment may resize; a memoryview may not
+            # (ValueError): `fixed_size` marks buffers that cannot resize
+            if getattr(v, "fixed_size", False) and \
+                    ex.fork(ln != b - a, "memoryview slice size mismatch"):
+                ex.raise_builtin(ValueError)
+            k = z3.Int("k!b")
+            sa, na = b_arr(s), b_arr(new)
+            v.t = mkb(z3.Lambda([k], z3.If(k < a, z3.Select(sa, k), z3.If(
+                k < a + ln, z3.Select(na, k - a),
+                z3.Select(sa, k - ln + (b - a))))),
+                z3.simplify(n - (b - a) + ln))
             return
         raise OutOfReach(f"slice assignment on {v!r}")
 
@@ -293,7 +300,7 @@ class Lib:
             cur.items.extend(ex.iterate_concrete(val))
             return cur
         if isinstance(cur, MutBytes) and op == "+":
-            cur.t = z3.Concat(cur.t, lift_bytes(val))
+            cur.t = ops.bconcat_t(cur.t, lift_bytes(val))
             return cur
         if isinstance(cur, PSet) and op == "|":
             cur.s |= val.s
@@ -683,21 +690,19 @@ def m_bytes(ex, args, kw):
     items = ex.iterate_concrete(v)
     if all(isinstance(i, int) for i in items):
         return bytes(items)
-    ts = []
-    for i in items:
+    arr = ZERO_ARR
+    for n, i in enumerate(items):
         t = lift_int(i)
         if ex.fork(z3.Or(t < 0, t > 255), "bytes element out of range"):
             ex.raise_builtin(ValueError, "bytes must be in range(0, 256)")
-        ts.append(z3.Unit(t))
-    if not ts:
-        return b""
-    return mk_bytes(z3.Concat(*ts) if len(ts) > 1 else ts[0])
+        arr = z3.Store(arr, n, t)
+    return mk_bytes(mkb(arr, z3.IntVal(len(items))))
 
 
 @model(bytearray)
 def m_bytearray(ex, args, kw):
     if not args:
-        return MutBytes(z3.Empty(BytesSort))
+        return MutBytes(lift_bytes(b""))
     v = args[0]
     if isinstance(v, int) or (isinstance(v, Sym) and v.ty == INT):
         return MutBytes(lift_bytes(m_bytes(ex, [v], {})))
@@ -825,12 +830,20 @@ def layout(fmt):
 
 
 def int_to_bytes(ex, t, size, signed, big):
+    """list of `size` z3 Int byte values (in memory order)"""
     lo = -(1 << (8 * size - 1)) if signed else 0
     hi = (1 << (8 * size - 1)) - 1 if signed else (1 << (8 * size)) - 1
     if ex.fork(z3.Or(t < lo, t > hi), "struct.pack argument out of range"):
         ex.raise_builtin(struct.error, "argument out of range")
     u = z3.If(t < 0, t + (1 << (8 * size)), t) if signed else t
-    bs = [z3.Unit((u / (1 << (8 * k))) % 256) for k in range(size)]
+    bs = [z3.simplify((u / (1 << (8 * k))) % 256) for k in range(size)]
+    if size > 1 and not z3.is_int_value(z3.simplify(u)):
+        # arithmetic identity (0 <= u < 256**size on this path): the bytes
+        # recompose to u.  Stated as a fact so that the solver need not
+        # rediscover it through div/mod reasoning.
+        ex.assume(z3.Sum(*[b * (1 << (8 * k)) for k, b in enumerate(bs)]) == u)
+        for b in bs:
+            ex.assume(z3.And(b >= 0, b <= 255))
     if big:
         bs.reverse()
     return bs
@@ -838,7 +851,7 @@ def int_to_bytes(ex, t, size, signed, big):
 
 def bytes_to_int(ex, s, off, size, signed, big):
     ks = range(size)
-    elems = [ops.byte_fact(ex, s, z3.simplify(off + k)) for k in ks]
+    elems = [ops.byte_at(ex, s, z3.simplify(off + k)) for k in ks]
     if big:
         elems.reverse()
     u = z3.Sum(*[e * (1 << (8 * k)) for k, e in enumerate(elems)]) \
@@ -859,48 +872,40 @@ def do_pack(ex, fmt, values):
             return struct.pack(fmt, *values)
         except struct.error:
             ex.raise_builtin(struct.error, "pack")
-    parts = []
-    pos = 0
+    arr = ZERO_ARR          # all offsets are concrete: plain stores
     vi = 0
+    k = z3.Int("k!b")
     for code, n, off, size in lay:
-        if off > pos:
-            parts.append(lift_bytes(bytes(off - pos)))
-        pos = off + size
         if code == "x":
-            parts.append(lift_bytes(bytes(n)))
             continue
         v = values[vi]
         vi += 1
-        if code == "s":
+        if code in "sp":
             if not is_byteslike(v):
-                ex.raise_builtin(struct.error, "s needs bytes")
+                ex.raise_builtin(struct.error, "s/p needs bytes")
             b = lift_bytes(v)
-            ln = z3.Length(b)
-            # truncated or zero padded to n
-            pad = ops.zeros(ex, mk_int(z3.If(ln < n, n - ln, 0)))
-            parts.append(z3.Concat(z3.SubSeq(b, 0, z3.If(ln < n, ln, n)),
-                                   lift_bytes(pad)))
-        elif code == "p":
-            if not is_byteslike(v):
-                ex.raise_builtin(struct.error, "p needs bytes")
-            b = lift_bytes(v)
-            ln = z3.Length(b)
-            k = z3.If(ln < n - 1, ln, n - 1)
-            pad = ops.zeros(ex, mk_int(n - 1 - k))
-            parts.append(z3.Concat(z3.Unit(z3.If(k > 255, 255, k)),
-                                   z3.SubSeq(b, 0, k), lift_bytes(pad)))
+            ln, ba = b_len(b), b_arr(b)
+            if code == "s":
+                # truncated or zero padded to n bytes
+                arr = z3.Lambda([k], z3.If(z3.And(k >= off, k < off + n),
+                                           z3.If(k - off < ln, z3.Select(ba, k - off), 0),
+                                           z3.Select(arr, k)))
+            else:
+                cnt = z3.If(ln < n - 1, ln, n - 1)
+                cnt = z3.If(cnt > 255, 255, cnt)
+                arr = z3.Lambda([k], z3.If(k == off, cnt, z3.If(
+                    z3.And(k > off, k < off + n),
+                    z3.If(k - off - 1 < cnt, z3.Select(ba, k - off - 1), 0),
+                    z3.Select(arr, k))))
         elif code == "?":
-            t = ex.truth_term(v)
-            parts.append(z3.Unit(z3.If(t, 1, 0)))
+            arr = z3.Store(arr, off, z3.If(ex.truth_term(v), 1, 0))
         else:
             if not ops.is_intlike(v):
                 ex.raise_builtin(struct.error, "required argument is not an integer")
-            parts += int_to_bytes(ex, lift_int(v), size, code.islower(), big)
-    if total > pos:
-        parts.append(lift_bytes(bytes(total - pos)))
-    if not parts:
-        return b""
-    return mk_bytes(z3.Concat(*parts) if len(parts) > 1 else parts[0])
+            for i, bt in enumerate(int_to_bytes(ex, lift_int(v), size,
+                                                code.islower(), big)):
+                arr = z3.Store(arr, off + i, bt)
+    return mk_bytes(mkb(arr, z3.IntVal(total)))
 
 
 def do_unpack(ex, fmt, data, offset=0, exact=True):
@@ -914,7 +919,7 @@ def do_unpack(ex, fmt, data, offset=0, exact=True):
         except struct.error:
             ex.raise_builtin(struct.error, "unpack")
     s = lift_bytes(data)
-    n = z3.Length(s)
+    n = b_len(s)
     off = lift_int(offset)
     if exact:
         bad = n != total
@@ -923,18 +928,19 @@ def do_unpack(ex, fmt, data, offset=0, exact=True):
         bad = z3.Or(off < 0, n - off < total)
     if ex.fork(bad, "struct.unpack buffer size mismatch"):
         ex.raise_builtin(struct.error, "unpack requires a buffer of %d bytes" % total)
+    off = z3.simplify(off)
     out = []
     for code, cnt, o, size in lay:
         if code == "x":
             continue
         if code == "s":
-            out.append(mk_bytes(z3.SubSeq(s, off + o, cnt)))
+            out.append(mk_bytes(ops.bslice_t(s, off + o, z3.IntVal(cnt))))
         elif code == "p":
-            k = ops.byte_fact(ex, s, z3.simplify(off + o))
+            k = ops.byte_at(ex, s, z3.simplify(off + o))
             k = z3.If(k > cnt - 1, cnt - 1, k)
-            out.append(mk_bytes(z3.SubSeq(s, off + o + 1, k)))
+            out.append(mk_bytes(ops.bslice_t(s, off + o + 1, k)))
         elif code == "?":
-            out.append(mk_bool(ops.byte_fact(ex, s, z3.simplify(off + o)) != 0))
+            out.append(mk_bool(ops.byte_at(ex, s, z3.simplify(off + o)) != 0))
         else:
             out.append(mk_int(bytes_to_int(ex, s, off + o, size,
                                            code.islower(), big)))
@@ -1210,7 +1216,7 @@ class JoinList:
     contract: `joinlists = {"ret"}`)"""
 
     def __init__(self, t=None):
-        self.t = t if t is not None else z3.Empty(BytesSort)
+        self.t = t if t is not None else lift_bytes(b"")
         self.bad = None
 
     def snapshot(self):
@@ -1224,7 +1230,7 @@ def _jl_append(ex, j, v):
     if not is_byteslike(v):
         j.bad = "list element is not bytes-like"
         return
-    j.t = z3.Concat(j.t, lift_bytes(v))
+    j.t = ops.bconcat_t(j.t, lift_bytes(v))
 
 
 # ----------------------------------------------------------------------
